@@ -150,6 +150,9 @@ fn build_steps(st: &mut Store, r: &mut Rng, a: &ANode, order: usize, ops: &mut V
                 let mut idx: Vec<usize> = (0..kids.len()).collect();
                 // random attachment order
                 for i in (1..idx.len()).rev() { let j = r.below(i + 1); idx.swap(i, j); }
+                // text nodes last: attaching a text node next to another one before the node that separates them in the
+                // document is there would merge the two (consolidation), and that construction does not end in this document
+                idx.sort_by_key(|i| matches!(kids[*i], ANode::Text(_)));
                 for i in idx {
                     let c = go(st, r, &kids[i], order, ops, obs)?;
                     // attach relative to the nearest already attached sibling
